@@ -54,12 +54,38 @@ def make_gen(m, rng):
                     for f in fields:
                         if f["ty"] in ("int", "str") and r.random() < 0.3:
                             f["conv"] = f["ty"]
+                        if r.random() < 0.3:
+                            f["alias"] = m.attrs_alias(r, f["name"])
             return w
 
         def leaf_type(self, w, max_cls, fmt_hint=None):
-            if self.rng.random() < 0.3:
+            c = self.rng.random()
+            if c < 0.27:
                 return self.sunion(w, max_cls)
+            if c < 0.4:
+                return self.elit(w)
             return super().leaf_type(w, max_cls, fmt_hint)
+
+        def elit(self, w):
+            """a Literal mixing enum members (of one or two classes: plain / int / str mix-in) with primitive
+            alternatives; no two alternatives share a value (the literal hook maps values back to alternatives)"""
+            r = self.rng
+            alts, seen = [], []
+
+            def add(alt, v):
+                if not any(m.gen.py_eq(v, u) for u in seen):
+                    alts.append(alt)
+                    seen.append(v)
+
+            for ei in r.sample(range(len(w["enums"])), min(len(w["enums"]), r.choice([1, 1, 2]))):
+                vals = w["enums"][ei]["vals"]
+                for mi in r.sample(range(len(vals)), r.randint(1, len(vals))):
+                    add(("e", ei, mi), vals[mi])
+            for v in r.sample([("s", "auto"), ("s", "b"), ("s", ""), ("i", 0), ("i", 10), ("i", 1), ("b", True), ("s", "7")],
+                              r.choice([0, 1, 1, 2, 3])):
+                add(v, v)
+            r.shuffle(alts)
+            return ("elit", alts)
 
         def native_members(self):
             r = self.rng
@@ -98,6 +124,8 @@ def make_gen(m, rng):
                 if mem == "none":
                     return ("N",)
                 return self.value(w, mem, depth)
+            if not isinstance(t, str) and t[0] == "elit":
+                return r.choice(t[1])      # every alternative gets values
             if not isinstance(t, str) and t[0] == "cls":
                 c = w["classes"][t[1]]
                 return ("I", t[1], [(f["name"], f["dflt"] if "dflt" in f and r.random() < 0.5
@@ -118,7 +146,53 @@ def disambiguable(ca, cb):
     nb = {f["name"] for f in cb["fields"] if "dflt" not in f}
     alla = {f["name"] for f in ca["fields"]}
     allb = {f["name"] for f in cb["fields"]}
-    return bool(na - allb) and bool(nb - alla)
+    if not (na - allb and nb - alla):
+        return False
+    # A field common to both classes and of a Literal type in both is taken as the discriminator by
+    # create_default_dis_func; with enum members among the alternatives its table is keyed by the members while the
+    # payload holds their values (KeyError: candidate finding F62, a disambiguation defect - property C12's
+    # territory, reproduced at start-up by `literal_enum_discriminator_defect`): such pairs are not put in a union
+    ta = {f["name"]: f["ty"] for f in ca["fields"]}
+    for f in cb["fields"]:
+        tb, t0 = f["ty"], ta.get(f["name"])
+        if t0 is not None and not isinstance(tb, str) and not isinstance(t0, str) and {tb[0], t0[0]} <= {"lit", "elit"}:
+            if any(a[0] == "e" for t in (tb, t0) if t[0] == "elit" for a in t[1]):
+                return False
+    return True
+
+
+def literal_enum_discriminator_defect():
+    """Union[A, B], A.kind: Literal[Kind.A], B.kind: Literal[Kind.B]: does structuring the unstructured A fail?"""
+    import enum
+    from typing import Literal, Union
+    import attrs
+    import cattrs
+    K = enum.Enum("K16F62", {"A": "a", "B": "b"})
+    A = attrs.make_class("A16F62", {"kind": attrs.field(type=Literal[K.A]), "x": attrs.field(type=int)})
+    B = attrs.make_class("B16F62", {"kind": attrs.field(type=Literal[K.B]), "y": attrs.field(type=int)})
+    c = cattrs.Converter()
+    try:
+        return c.structure(c.unstructure(A(K.A, 1)), Union[A, B]) != A(K.A, 1)
+    except Exception:  # noqa: BLE001
+        return True
+
+
+def elit_alts(m, w, t, seen=None):
+    """the alternatives of every enum literal the type reaches"""
+    if isinstance(t, str) or t is None:
+        return []
+    k = t[0]
+    if k == "elit":
+        return list(t[1])
+    if k in ("enum", "lit", "nt", "union"):
+        return []
+    if k in ("tup", "sunion"):
+        return [a for x in t[1] for a in elit_alts(m, w, x)]
+    if k in m.MAP_KINDS:
+        return elit_alts(m, w, t[1]) + elit_alts(m, w, t[2])
+    if k in ("cls", "td", "ntc"):
+        return [a for f in w["classes"][t[1]]["fields"] for a in elit_alts(m, w, f["ty"])]
+    return elit_alts(m, w, t[1])
 
 
 def has_sunion(m, w, t):
@@ -127,7 +201,7 @@ def has_sunion(m, w, t):
     k = t[0]
     if k == "sunion":
         return True
-    if k in ("enum", "lit", "nt", "union"):
+    if k in ("enum", "lit", "nt", "union", "elit"):
         return False
     if k == "tup":
         return any(has_sunion(m, w, x) for x in t[1])
@@ -141,6 +215,7 @@ def has_sunion(m, w, t):
 def run_ext(chk, m, ran, fmts, skip_strann_msgspec):
     rng = chk.rng
     G = make_gen(m, rng)
+    chk.note("ext:literal-enum-discriminator-defect:" + ("present" if literal_enum_discriminator_defect() else "absent"))
     n_worlds = 130 if chk.tier == "quick" else 1300
     for _ in range(n_worlds):
         w = G.world()
@@ -149,8 +224,12 @@ def run_ext(chk, m, ran, fmts, skip_strann_msgspec):
         except Exception as e:  # noqa: BLE001
             chk.note("ext:world-rejected-by-python:" + type(e).__name__)
             continue
-        for ti in range(4):
-            if ti < 2:
+        for ti in range(5):
+            if ti == 4:
+                t = G.elit(w)
+                if rng.random() < 0.4:
+                    t = (rng.choice(["list", "opt", "tup*"]), t) if rng.random() < 0.7 else ("dict", "str", t)
+            elif ti < 2:
                 t = G.sunion(w, len(w["classes"]))
                 if rng.random() < 0.3:
                     t = (rng.choice(["list", "opt", "tup*"]), t) if rng.random() < 0.7 else ("dict", "str", t)
@@ -167,6 +246,9 @@ def run_ext(chk, m, ran, fmts, skip_strann_msgspec):
                        "uhook": (rng.choice([2000, 1, -3, 7]) if rng.random() < 0.3 else None), **m.gen_options(rng)}
                 if cfg["uhook"] is not None and m.has_union_float(w, t):
                     cfg["uhook"] = None
+                if rng.random() < 0.35:      # a user unstructure hook (member -> value) on one enum class
+                    in_lit = sorted({a[1] for a in elit_alts(m, w, t) if a[0] == "e"})
+                    cfg["ehook"] = rng.choice(in_lit) if in_lit and rng.random() < 0.8 else rng.randrange(len(w["enums"]))
                 if m.uses_nonnative_union(w, t, fmt):
                     chk.note("ext:skipped:non-native-union:" + fmt)
                     continue
@@ -185,7 +267,7 @@ def one(chk, m, R, w, fmt, mod, cfg, t, x):
         return
     res = m.run_impl(R, fmt, mod, cfg, t, x, xv)
     bad = m.check_oracle(w, cfg, t, x, res)
-    key = "ext" + fmt + m.uh_sx(cfg) + m.opts_sx(cfg) + repr(t) + m.terms.canon_sx(x)
+    key = "ext" + fmt + m.uh_sx(cfg) + m.eh_sx(cfg) + m.opts_sx(cfg) + repr(t) + m.terms.canon_sx(x)
     chk.count(key, nontrivial=True)
     ovr = cfg.get("ovr")
     chk.note("ext:cases", "ext:fmt:" + fmt, "ext:outcome:" + (bad[0] if bad else "ok"),
@@ -193,6 +275,16 @@ def one(chk, m, R, w, fmt, mod, cfg, t, x):
              "ext:top:" + (t if isinstance(t, str) else t[0]))
     if has_sunion(m, w, t):
         chk.note("ext:reaches-spill-over-union")
+    alts = elit_alts(m, w, t)
+    if alts:
+        mixed = any(a[0] == "e" for a in alts) and any(a[0] != "e" for a in alts)
+        chk.note("ext:reaches-enum-literal" + (":mixed-with-primitives" if mixed else ""))
+        if cfg.get("ehook") is not None and any(a[0] == "e" and a[1] == cfg["ehook"] for a in alts):
+            chk.note("ext:enum-literal-with-user-hook-on-its-enum")
+    if not isinstance(t, str) and t[0] == "elit":
+        chk.note("ext:enum-literal-value:" + ("member" if x[0] == "e" else "primitive"))
+    if m.reaches_alias(w, t):
+        chk.note("ext:reaches-attrs-field-with-explicit-alias")
     top = t[1] if (not isinstance(t, str) and t[0] == "opt" and x[0] != "N") else t
     if not isinstance(top, str) and top[0] == "sunion":
         mem = m.member_of(w, top, x) if x[0] in ("I", "l", "t", "S", "F", "d", "q") else None
